@@ -87,6 +87,12 @@ TFromFile == /\ Ev.ev = "FromFile" /\ Ev.exc = "None"
              /\ FromFile(Ev.m, Ev.f, Ev.k) /\ Agree(Ev.m) /\ DiskAgree
 TBadArgs == /\ Ev.ev = "UpdateBadArgs" /\ Ev.exc = "ValueError"
             /\ UpdateBadArgs(Ev.m, Ev.which) /\ Agree(Ev.m)
+\* the client's own callable raised: whatever exception class comes out, nothing may have moved
+TUpdateFaulted == /\ Ev.ev = "UpdateFaulted" /\ Ev.exc # "None"
+                  /\ UpdateFaulted(Ev.m, Ev.fl, Par, Ev.fc) /\ Agree(Ev.m)
+TUpdateAllFaulted == /\ Ev.ev = "UpdateAllFaulted" /\ Ev.exc # "None"
+                     /\ UpdateAllFaulted(Ev.ms, Ev.fl, Par, Ev.fc)
+                     /\ \A k \in 1..Len(Ev.ms) : Agree(Ev.ms[k])
 TVoigtOk == /\ Ev.ev = "Voigt" /\ Ev.exc = "None"
             /\ VoigtOk(Ev.ms, Par) /\ \A k \in 1..Len(Ev.ms) : Agree(Ev.ms[k])
 TVoigtRejected == /\ Ev.ev = "Voigt" /\ Ev.exc = "ValueError"
@@ -98,7 +104,7 @@ TLoadBadName == /\ Ev.ev = "LoadBadName" /\ Ev.exc = "ValueError"
 Bound == \/ TCreate \/ TUpdateOk \/ TUpdateRejected \/ TUpdateAbsent
          \/ TUpdateAllOk \/ TUpdateAllPartial
          \/ TSavePostfix \/ TSaveWhole \/ TSaveCorrupt \/ TLoad \/ TFromFile \/ TLoadBadName
-         \/ TBadArgs \/ TVoigtOk \/ TVoigtRejected
+         \/ TBadArgs \/ TVoigtOk \/ TVoigtRejected \/ TUpdateFaulted \/ TUpdateAllFaulted
 
 \* ---------------------------------------------------------------- diagnosis (names only)
 Touched == IF Has(Ev, "ms") THEN {Ev.ms[k] : k \in 1..Len(Ev.ms)} ELSE {Ev.m}
@@ -119,6 +125,10 @@ Diagnose ==
     ELSE IF Ev.ev \in {"SavePostfix", "SaveWholeFile"} THEN "archive-differs-after-save"
     ELSE IF Ev.ev = "SaveCorrupt" THEN (IF Ev.exc # "ValueError" THEN "corrupt-save-not-refused" ELSE "corrupt-save-wrote")
     ELSE IF Ev.ev = "UpdateAll" THEN "update-all-post-state-differs"
+    ELSE IF Ev.ev \in {"UpdateFaulted", "UpdateAllFaulted"} THEN
+        (IF Ev.exc = "None" THEN "client-fault-swallowed"
+         ELSE IF \E m \in Touched : ObsOf(m) # hist[m] THEN "failed-update-touched-history"
+         ELSE "client-fault-changed-the-mineral")
     ELSE IF Ev.ev = "UpdateBadArgs" THEN (IF Ev.exc # "ValueError" THEN "bad-arguments-not-refused" ELSE "bad-arguments-touched-history")
     ELSE IF Ev.ev = "Voigt" /\ AllLive(Ev.ms) THEN
         (IF Ev.exc = "None" /\ ~VoigtAccepts(Ev.ms, Par) THEN "voigt-accepted-where-spec-rejects"
